@@ -3,6 +3,7 @@ import OrsoVerif.Lemmas.SchemaOps
 import OrsoVerif.Lemmas.SchemaFns
 import OrsoVerif.Lemmas.SchemaHeap
 import OrsoVerif.Lemmas.SchemaBattery
+import OrsoVerif.Lemmas.SchemaOpaque
 import OrsoVerif.Generated.SchemaFns
 /-!
 # C17 — Schema union and lookup are identity-based, ordered and non-mutating
@@ -563,6 +564,50 @@ theorem sum_without_copy_modifies_left :
   · decide
   · decide
 
+/-! ## "By name" and "identity-based", exactly: what each operation may look at -/
+
+/-- **A name is a name, whatever it looks like.**  Rename all names and aliases (and the keys of the operations) by any
+injective `f` (for the case-insensitive lookups: any `f` under which the new lower-casing `lower'` identifies exactly
+what `lower` identified): every history of lookups, positional accesses, listings and removals runs the same, its
+answers and the columns left being the renamed ones.  So no operation can depend on *what* a name is — only on which
+names are equal: `column('1')` cannot read `'1'` as a position, a lookup cannot strip or pad its key, `'None'` and `''`
+are names like any other (rename `'1' ↦ 'x'` and the answer would have to stay the same column).  The translated
+source is held to this by `generated_column_eq_model` / `generated_find_column_eq_model` /
+`generated_pop_column_eq_model`, which hold for every `StrOps`. -/
+theorem names_are_opaque {ν' : Type} [DecidableEq ν'] (f : ν → ν') (hf : ∀ x y, f x = f y → x = y)
+    (lower : ν → ν) (lower' : ν' → ν') (hr : Respects f lower lower') (ops : List (Op ν)) (cols : List (Col ι ν)) :
+    run lower' (cols.map (Col.rename f)) (ops.map (Op.rename f))
+      = ((run lower cols ops).1.map (Col.rename f), (run lower cols ops).2.map (Out.rename f)) :=
+  run_rename f hf lower lower' hr ops cols
+
+/-- The counterexample that shows the theorem above has teeth: `column` as C17-w4s3 wrote it (a decimal name below the
+width is a position) does *not* commute with the injective renaming `n ↦ n + 1`: on columns named `1, 0` the key `1`
+gives the column at position 1; renamed (`2, 1`, key `2`) it gives the column *named* `2`, which is the other one. -/
+theorem text_as_position_is_not_natural :
+    let cols : List (Col Nat Nat) := [⟨0, 10, 1, none⟩, ⟨1, 11, 0, none⟩]
+    let f : Nat → Nat := (· + 1)
+    columnTextAsPosition (fun _ => true) (fun n : Nat => (n : Int)) (cols.map (Col.rename f)) (.name (f 1))
+      ≠ (columnTextAsPosition (fun _ => true) (fun n : Nat => (n : Int)) cols (.name 1)).rename f
+    ∧ column (cols.map (Col.rename f)) (.name (f 1)) = (column cols (.name 1)).rename f := by
+  decide
+
+/-- **Lookup, positional access, listing and removal never look at identities**: give every column another identity
+(by any function — distinct identities may even collapse) and every history runs the same. -/
+theorem lookup_ignores_identities {ι' : Type} [DecidableEq ι'] (h : ι → ι') (lower : ν → ν) (ops : List (Op ν))
+    (cols : List (Col ι ν)) :
+    run lower (cols.map (Col.relabel h)) ops
+      = ((run lower cols ops).1.map (Col.relabel h), (run lower cols ops).2.map (Out.relabel h)) :=
+  run_relabel h lower ops cols
+
+/-- **The sum is identity-based and nothing else**: change the columns of both operands by any map that keeps
+identities (other names — even all the same —, other aliases, other objects) and the sum is the changed sum: which
+columns it lists, and in which order, depends on identities alone. -/
+theorem union_ignores_names {ν₂ : Type} [DecidableEq ν₂] (g : Col ι ν → Col ι ν₂)
+    (hg : ∀ c, (g c).identity = c.identity) (a b : Schema ι ν) (n n' : ν₂) (al al' : List ν₂) :
+    (union ⟨n, al, a.columns.map g⟩ ⟨n', al', b.columns.map g⟩).columns = (union a b).columns.map g := by
+  simp only [union, ids_map g hg]
+  exact unionLoop_map g hg _ _ _
+
 /-! ## The source the model was written from -/
 
 /-- What the generated functions cannot say, as read from `orso/schema.py` and `orso/tools.py` on this run:
@@ -624,6 +669,19 @@ example :
     ∧ st.abs = regs ∧ (st.regs.map (·.ref)).Nodup ∧ (∀ s ∈ st.regs, s.ref < st.heap.length)
     ∧ (SchemaHeap.hrun true (· % 10) st prog).map (fun r => r.1.abs) = (prun (· % 10) regs prog).map (·.1) := by decide
 
+/-- `names_are_opaque` on a concrete history: names shifted by 10 (which `(· % 10)`-lower-casing respects), a
+case-insensitive lookup, a lookup by name through `column`, a removal — the hypotheses hold and the answers are the
+renamed ones. -/
+example :
+    let f : Nat → Nat := (· + 10)
+    let ops : List (Op Nat) := [.find 13 true, .column (.name 2), .pop 1, .column (.idx 0), .names]
+    (∀ x y : Fin 40, f x = f y → x = y)
+    ∧ (∀ x y : Fin 40, (f x) % 10 = (f y) % 10 ↔ x.val % 10 = y.val % 10)
+    ∧ (run (· % 10) [c0, c1, c2, c3] ops).2 = [.col (some c2), .col (some c0), .popped (some c0), .col (some c1), .strs [2, 3, 1]]
+    ∧ run (· % 10) ([c0, c1, c2, c3].map (Col.rename f)) (ops.map (Op.rename f))
+        = ((run (· % 10) [c0, c1, c2, c3] ops).1.map (Col.rename f), (run (· % 10) [c0, c1, c2, c3] ops).2.map (Out.rename f)) := by
+  decide
+
 /-! ## The source, translated: what `orso/schema.py` says now is the model
 
 `Gen.SchemaFns.*` are produced from the function bodies of the working tree on every run
@@ -646,23 +704,38 @@ theorem generated_all_names_eq_model (c : Col ι ν) : Gen.SchemaFns.all_names c
   cases h : c.aliases <;> simp [Gen.SchemaFns.all_names, Col.allNames, h, Gen.SchemaOps.aliasesFirst]
 
 /-- `RelationSchema.find_column` (both branches) -/
-theorem generated_find_column_eq_model (lower : ν → ν) (s : Schema ι ν) (k : ν) (ci : Bool) :
-    Gen.SchemaFns.find_column lower s k ci = find lower s.columns k ci := by
+theorem generated_find_column_eq_model (S : StrOps ν) (lower : ν → ν) (s : Schema ι ν) (k : ν) (ci : Bool) :
+    Gen.SchemaFns.find_column S lower s k ci = find lower s.columns k ci := by
   unfold Gen.SchemaFns.find_column find
-  cases ci <;>
-    simp [generated_all_names_eq_model, findCol_eq_find?, Col.bears, SchemaFnsLemmas.match_find?_id] <;>
-    grind
+  first
+    | (cases ci <;>
+        simp [generated_all_names_eq_model, findCol_eq_find?, Col.bears, SchemaFnsLemmas.match_find?_id] <;>
+        grind)
+    | -- `for n in range(len(self.columns)): if <self.columns[n] bears the key>: return self.columns[n]`
+      (cases ci <;> simp only [Bool.false_eq_true, if_false, if_true] <;>
+        (split
+         · next c i h =>
+           rw [findCol_eq_find?]
+           exact (SchemaFnsLemmas.zipIdx_find?_some _ _
+             (by intro x; simp [generated_all_names_eq_model, Col.bears] <;> first | rfl | congr | grind) _ _ _ h).symm
+         · next h =>
+           rw [findCol_eq_find?]
+           exact (SchemaFnsLemmas.zipIdx_find?_none _ _
+             (by intro x; simp [generated_all_names_eq_model, Col.bears] <;> first | rfl | congr | grind) _ h).symm))
 
 /-- `RelationSchema.column`: an `int` (a `bool` included: `isinstance(True, int)`) indexes the column list the
-way a Python list is indexed, anything else is looked up by name, case-sensitively. -/
-theorem generated_column_eq_model (s : Schema ι ν) (key : Key ν) :
-    Gen.SchemaFns.column s key = column s.columns key := by
+way a Python list is indexed, anything else is looked up by name, case-sensitively — **whatever the name looks
+like** (`S` is everything Python can ask of a string besides comparing it: `'1'.isdecimal()`, `int('1')`,
+`' a'.strip()`, `== 'None'` …: the translated function takes it as a parameter and the equality holds for every
+`S`, i.e. the source consults none of it), and it raises nothing but `IndexError` (`.ok`). -/
+theorem generated_column_eq_model (S : StrOps ν) (s : Schema ι ν) (key : Key ν) :
+    Gen.SchemaFns.column S s key = .ok (column s.columns key) := by
   unfold Gen.SchemaFns.column column
   cases key <;> simp [generated_find_column_eq_model, find, boolIndex] <;> grind
 
 /-- `RelationSchema.pop_column`: the removed column and the remaining column list -/
-theorem generated_pop_column_eq_model (s : Schema ι ν) (k : ν) :
-    Gen.SchemaFns.pop_column s k = popCol k s.columns := by
+theorem generated_pop_column_eq_model (S : StrOps ν) (s : Schema ι ν) (k : ν) :
+    Gen.SchemaFns.pop_column S s k = popCol k s.columns := by
   unfold Gen.SchemaFns.pop_column
   first
     | -- `for idx, column in enumerate(self.columns): if <named k>: return self.columns.pop(idx)`
@@ -695,6 +768,10 @@ theorem generated_add_eq_model (a b : Schema ι ν) : Gen.SchemaFns.add a b = un
        done)
     | (rw [SchemaFnsLemmas.foldl_union_swapped _ (by intro st c; cases st; simp <;> grind)]
        simp [ids]
+       done)
+    | -- the seen identities are the keys of a dict (`seen[column.identity] = …`, `column.identity not in seen`)
+      (rw [SchemaFnsLemmas.foldl_union_keyed _ (by intro st c; cases st; constructor <;> intro h <;> simp_all)]
+       simp [ids, Function.comp_def]
        done)
 
 /-- `column_names`, `__iter__`, `all_column_names` and `num_columns` -/
